@@ -9,6 +9,7 @@ import asyncio
 import hashlib
 import heapq
 import queue as _stdqueue
+import sys
 import threading
 import traceback
 
@@ -75,6 +76,7 @@ class Kernel:
         self.thread_counter = 0
         self.stats = {'thread_switches': 0, 'loop_steps': 0, 'timer_events': 0,
                       'clock_jumps': 0}
+        Kernel.last = self          # (post-mortem of a stuck harness only)
 
     # -- logging -----------------------------------------------------------
     def next_seq(self):
@@ -117,6 +119,11 @@ class Kernel:
     def latency(self, lo=1, hi=8, label='lat'):
         """A tape-drawn latency in ticks, at least ``lo`` ticks."""
         if self.fixed_latency is not None:
+            # (0 = requests and frames reach the server in the instant they
+            # are issued; the way back still takes a tick, or a client that
+            # reacts to answers at once would never let time advance)
+            if label in ('lat.resp', 'lat.s2c'):
+                return max(1, self.fixed_latency) * TICK
             return self.fixed_latency * TICK
         return (lo + self.tape.draw(hi - lo + 1, label)) * TICK
 
@@ -129,6 +136,74 @@ class Kernel:
 
     def in_thread(self):
         return self.current is not None
+
+    # -- line granularity --------------------------------------------------
+    line_mean = None
+
+    def enable_lines(self, spec, roots):
+        """Pre-empt sim threads between source lines of files under ``roots``.
+
+        ``spec``: {'mean': m, 'focus': [function names] or None, 'max': n}.
+        A pre-emption can only be taken where another actor is ready to run
+        (anything else is a no-op); the gap between two pre-emptions, counted
+        in such line events, is drawn from the tape (a zeroed slot = a long
+        gap).  With a focus only lines of functions of those names count.
+        Realisable under OS threads only: every primitive of the fakes is
+        atomic, as the locked stdlib ones are."""
+        if not isinstance(spec, dict):
+            spec = {'mean': spec}
+        self.line_mean = max(1, int(spec.get('mean', 4)))
+        self.line_focus = frozenset(spec['focus']) if spec.get('focus') \
+            else None
+        self.line_left = int(spec.get('max', 1000))
+        self.line_roots = tuple(roots)
+        self.stats['line_events'] = 0
+        self.stats['line_preempts'] = 0
+        self.line_sites = {}
+        self.line_gap = self._draw_gap()
+
+    def line_faults(self):
+        if not self.line_mean:
+            return {}
+        return {'preemption_between_lines': self.stats['line_preempts']}
+
+    def _draw_gap(self):
+        if self.line_left <= 0:
+            return None
+        self.line_left -= 1
+        v = self.tape.draw(2 * self.line_mean + 1, 'gap')
+        return v if v else 64 * self.line_mean
+
+    def _global_trace(self, frame, event, arg):
+        code = frame.f_code
+        # (finalisers run whenever the collector pleases, inside any frame)
+        if code.co_name != '__del__' and \
+                code.co_filename.startswith(self.line_roots) and (
+                self.line_focus is None or code.co_name in self.line_focus):
+            return self._local_trace
+        return None
+
+    def _local_trace(self, frame, event, arg):
+        if event != 'line' or self.line_gap is None or self.killing:
+            return self._local_trace
+        th = self.current
+        if th is None or th.no_preempt or \
+                th._t is not threading.current_thread():
+            return self._local_trace
+        if self.runnable or self.due or (
+                self.timers and self.timers[0].when <= self.now) or (
+                self.loop is not None and self.loop.has_work()):
+            self.stats['line_events'] += 1
+            self.line_gap -= 1
+            if self.line_gap <= 0:
+                self.line_gap = self._draw_gap()
+                self.stats['line_preempts'] += 1
+                site = '%s:%d' % (frame.f_code.co_filename.rsplit('/', 1)[-1],
+                                  frame.f_lineno)
+                self.line_sites[site] = self.line_sites.get(site, 0) + 1
+                self.ev('preempt', site=site)
+                self.yield_point('line')
+        return self._local_trace
 
     def yield_point(self, what=''):
         """Cooperative pre-emption point; no-op outside sim threads."""
@@ -303,6 +378,14 @@ class Kernel:
         self.timers = []
         return leaked
 
+    def describe(self):
+        cur = self.current
+        return 'current=%s now=%r steps=%d runnable=%r threads=%r' % (
+            cur and (cur.name, cur.state, cur._t.is_alive()), self.now,
+            self.steps, [t.name for t in self.runnable],
+            [(t.name, t.state, t.blocked_on, t._t.is_alive())
+             for t in self.threads])
+
     def blocked_threads(self):
         return [th for th in self.threads if th.state == 'blocked']
 
@@ -329,6 +412,7 @@ class SimThread:
         self.wait_token = 0
         self.wait_timer = None
         self.joiners = []
+        self.no_preempt = 0
         self.exc = None
         self.spawn_seq = None
         self._t = threading.Thread(target=self._boot, daemon=True)
@@ -342,7 +426,14 @@ class SimThread:
         k.threads.append(self)
         k.runnable.append(self)
         self.spawn_seq = k.ev('spawn', thread=self.name)
-        self._t.start()
+        cur = k.current
+        if cur is not None:
+            cur.no_preempt += 1
+        try:
+            self._t.start()
+        finally:
+            if cur is not None:
+                cur.no_preempt -= 1
         k.yield_point('thread.start')
 
     def _park(self):
@@ -358,6 +449,8 @@ class SimThread:
         self.sem.acquire()
         try:
             if not k.killing:
+                if k.line_mean:
+                    sys.settrace(k._global_trace)
                 self.target(*self.args, **self.kwargs)
         except SimKilled:
             pass
@@ -368,6 +461,8 @@ class SimThread:
             k.thread_errors.append(
                 (self.name, repr(e), traceback.format_exc(limit=12)))
         finally:
+            if k.line_mean:
+                sys.settrace(None)
             self.state = 'done'
             for j in self.joiners:
                 k.wake(j, 'joined')
